@@ -125,7 +125,8 @@ def theorem_names(prop_file):
     src_nc = re.sub(r'--.*', '', src_nc)
     ns = re.findall(r'^namespace\s+(\S+)', src_nc, flags=re.M)
     prefix = (ns[0] + '.') if ns else ''
-    names = re.findall(r'^\s*(?:private\s+|protected\s+)?theorem\s+(\S+)', src_nc, flags=re.M)
+    # private theorems cannot be named from outside their file; whatever they use shows up in the axioms of the public theorems built on them
+    names = re.findall(r'^\s*(?:protected\s+)?theorem\s+(\S+)', src_nc, flags=re.M)
     examples = len(re.findall(r'^\s*example\b', src_nc, flags=re.M))
     return [prefix + n for n in names], examples, src_nc
 
@@ -365,24 +366,66 @@ def jsonable(o):
     return repr(o)
 
 
+def _copy_arg(x):
+    import numpy as np
+    if isinstance(x, np.ndarray):
+        return x.copy()
+    if isinstance(x, (list, dict)):
+        import copy
+        return copy.deepcopy(x)
+    return x
+
+
+def _raised_in_package(tb):
+    """innermost frame of the traceback lies in the package under test?"""
+    last = None
+    while tb is not None:
+        last = tb
+        tb = tb.tb_next
+    if last is None:
+        return None
+    fn = os.path.realpath(last.tb_frame.f_code.co_filename)
+    if fn.startswith(os.path.realpath(SRC) + os.sep):
+        return f'{os.path.basename(fn)}:{last.tb_frame.f_code.co_name}'
+    return None
+
+
 def safe_case(fn):
     """A harness-side exception in one generated case must not kill the whole check: it is counted, the first
-    traceback is kept for the log, and the run ends with exit 2 (infrastructure) if more than 1% of cases do this."""
+    traceback is kept for the log, and the run ends with exit 2 (infrastructure) if more than 1% of cases do this
+    (unless the exceptions come out of the package itself, see run_property).
+    Every case is also a candidate for the HISTORY phase (run_property): a sample of the cases is evaluated a second time at
+    the end of the run, grouped by kind, in a different order, with the array arguments delivered in re-used buffers."""
     import functools
 
     @functools.wraps(fn)
     def wrapper(ctx, *a, **k):
+        if ctx.phase == 'main' and ctx.pool is not None:
+            ctx.pool_seen += 1
+            if len(ctx.pool) < ctx.pool_cap:
+                ctx.pool.append((wrapper, tuple(_copy_arg(x) for x in a), {kk: _copy_arg(v) for kk, v in k.items()}))
+            else:
+                j = ctx.pool_rng.randrange(ctx.pool_seen)
+                if j < ctx.pool_cap:
+                    ctx.pool[j] = (wrapper, tuple(_copy_arg(x) for x in a), {kk: _copy_arg(v) for kk, v in k.items()})
         try:
             return fn(ctx, *a, **k)
         except (InfraError, KeyboardInterrupt):
             raise
-        except Exception:
+        except Exception as e:
             ctx.harness_exceptions += 1
+            where = _raised_in_package(e.__traceback__)
+            if where:
+                ctx.pkg_exceptions += 1
+                ctx.pkg_exception_sites[where] = ctx.pkg_exception_sites.get(where, 0) + 1
+                if 'first_package_exception' not in ctx.log:
+                    ctx.log['first_package_exception'] = traceback.format_exc()[-1500:]
             if ctx.harness_exceptions == 1:
                 ctx.log['first_harness_exception'] = traceback.format_exc()[-1500:]
             if ctx.driver is not None and ctx.driver.p.poll() is not None:
                 ctx.driver.dead = True
             return None
+    wrapper.__wrapped_case__ = fn
     return wrapper
 
 
@@ -404,6 +447,15 @@ class Ctx:
         self.log = {}
         self.known_lines = []
         self.harness_exceptions = 0
+        self.pkg_exceptions = 0
+        self.pkg_exception_sites = {}
+        # history phase (see run_property)
+        self.phase = 'main'
+        self.pool = [] if os.environ.get('VERIF_HISTORY', '1') != '0' else None
+        self.pool_cap = 250 if tier == 'quick' else 1500
+        self.pool_seen = 0
+        self.pool_rng = random.Random(seed * 31337 + 7)
+        self.buffers = {}
 
     # bookkeeping -------------------------------------------------------------------
     def tag(self, name, k=1):
@@ -493,6 +545,53 @@ def write_evidence(ctx, audit, level='proof', extra_cov=None, assumptions=None, 
     os.replace(tmp, os.path.join(edir, ctx.prop_id + '.json'))
 
 
+def reuse_buffer(ctx, x):
+    """deliver an array argument in a buffer that is re-used for every array of that shape/dtype (same id, same shape, new content):
+    what a caller does who refills a work array; caches keyed on identity or shape collide here."""
+    import numpy as np
+    if not isinstance(x, np.ndarray) or x.size == 0:
+        return x
+    key = (x.shape, x.dtype.str, np.isfortran(x))
+    b = ctx.buffers.get(key)
+    if b is None:
+        b = np.empty_like(x)
+        ctx.buffers[key] = b
+    np.copyto(b, x)
+    return b
+
+
+def history_phase(ctx):
+    """Second evaluation of a sample of the run's cases under a DIFFERENT call history: grouped by kind (same function, same string
+    options), shuffled inside the group, array arguments in re-used buffers.  Public functions are specified as functions of their
+    arguments; a module-level memo, a mutable default, a buffer kept between calls or a cache keyed on identity makes the second
+    evaluation differ, and the case's own predicate / correspondence then reports it with the case as replay."""
+    if not ctx.pool or ctx.phase != 'main':
+        return
+    budget = 60 if ctx.tier == 'quick' else 600
+    t0 = time.time()
+    ctx.phase = 'history'
+    groups = {}
+    for fn, a, k in ctx.pool:
+        key = (fn.__module__, fn.__qualname__, tuple(x for x in a if isinstance(x, str)))
+        groups.setdefault(key, []).append((fn, a, k))
+    nfail0 = len(ctx.failures)
+    done = 0
+    for key in sorted(groups, key=repr):
+        g = groups[key]
+        ctx.pool_rng.shuffle(g)
+        for fn, a, k in g:
+            if time.time() - t0 > budget:
+                break
+            fn(ctx, *[reuse_buffer(ctx, x) for x in a], **k)
+            done += 1
+    ctx.tag('history-phase-cases', done)
+    for f in ctx.failures[nfail0:]:
+        f.clause = f.clause + ' [history phase: second evaluation, grouped by kind, re-used argument buffers]'
+    ctx.phase = 'done'
+    ctx.pool = None
+    ctx.buffers = {}
+
+
 def run_property(mod, prop_id, tier, seed, replay=None):
     """Generic verdict logic (DESIGN §2.3). `mod` is the property module."""
     ctx = Ctx(prop_id, tier, seed)
@@ -535,6 +634,7 @@ def run_property(mod, prop_id, tier, seed, replay=None):
                             except Exception:
                                 ctx.harness_exceptions += 1
                 mod.run(ctx)
+                history_phase(ctx)
                 # escalation (DESIGN §2.3): a correspondence disagrees but no input violating the property was found yet ->
                 # search further (fresh random streams, same generators) for a concrete failing input before reporting
                 tries = 0
@@ -548,7 +648,16 @@ def run_property(mod, prop_id, tier, seed, replay=None):
                 print(f'HARNESS-EXCEPTIONS {ctx.harness_exceptions} (first: {ctx.log.get("first_harness_exception", "")[-400:]})')
                 ctx.tag('harness-exceptions', ctx.harness_exceptions)
                 if ctx.harness_exceptions > max(3, ctx.evaluations // 100):
-                    raise InfraError('too many harness-side exceptions')
+                    if any(f.kind == 'predicate' for f in ctx.failures):
+                        # a concrete failing input on the real code was found: that is the verdict, whatever else went wrong in the harness
+                        print('  (harness-side exceptions exceeded the infrastructure limit, but a failing input was found; verdict follows)')
+                    elif ctx.pkg_exceptions * 2 > ctx.harness_exceptions:
+                        # the package itself raises inside the primitives the correspondence needs: the correspondence no longer checks
+                        site = max(ctx.pkg_exception_sites.items(), key=lambda kv: kv[1])[0]
+                        ctx.fail('correspondence', 'oracle-call-raises-inside-the-package', site, dict(exhibited=False),
+                                 dict(cases=ctx.pkg_exceptions, first=ctx.log.get('first_package_exception', '')[-800:]))
+                    else:
+                        raise InfraError('too many harness-side exceptions')
     except InfraError as e:
         print('INFRA-ERROR', e)
         traceback.print_exc()
